@@ -1,0 +1,70 @@
+//go:build verif
+
+package evaluator
+
+import (
+	"sync/atomic"
+
+	"github.com/Syuparn/pangaea/object"
+)
+
+// VerifFuel is an evaluation budget used only by the verification harness
+// (build tag verif). It is inert unless armed, and it must only be armed
+// around evaluations running on a single goroutine.
+var VerifFuel struct {
+	Armed     atomic.Bool
+	Exhausted atomic.Bool
+	Steps     int64
+	MaxSteps  int64
+	Depth     int
+	MaxDepth  int
+	PeakDepth int
+	Err       *object.PanErr
+}
+
+// VerifArm resets and arms the budget.
+func VerifArm(maxSteps int64, maxDepth int) {
+	VerifFuel.Steps, VerifFuel.Depth, VerifFuel.PeakDepth = 0, 0, 0
+	VerifFuel.Exhausted.Store(false)
+	VerifFuel.MaxSteps, VerifFuel.MaxDepth = maxSteps, maxDepth
+	// NOTE: a fresh error per arm, because stack traces are appended in place
+	VerifFuel.Err = object.NewPanErr("verif: fuel exhausted")
+	VerifFuel.Armed.Store(true)
+}
+
+// VerifDisarm disarms the budget and reports whether it was exhausted.
+func VerifDisarm() bool {
+	VerifFuel.Armed.Store(false)
+	return VerifFuel.Exhausted.Load()
+}
+
+// VerifExhaust makes every further evaluation step fail (sticky), e.g. from a watchdog.
+func VerifExhaust() {
+	VerifFuel.Exhausted.Store(true)
+}
+
+func verifEnter() *object.PanErr {
+	if !VerifFuel.Armed.Load() {
+		return nil
+	}
+	if VerifFuel.Exhausted.Load() {
+		return VerifFuel.Err
+	}
+	VerifFuel.Steps++
+	VerifFuel.Depth++
+	if VerifFuel.Depth > VerifFuel.PeakDepth {
+		VerifFuel.PeakDepth = VerifFuel.Depth
+	}
+	if VerifFuel.Steps > VerifFuel.MaxSteps || VerifFuel.Depth > VerifFuel.MaxDepth {
+		VerifFuel.Exhausted.Store(true)
+		VerifFuel.Depth--
+		return VerifFuel.Err
+	}
+	return nil
+}
+
+func verifLeave() {
+	if VerifFuel.Armed.Load() && VerifFuel.Depth > 0 {
+		VerifFuel.Depth--
+	}
+}
